@@ -4,10 +4,14 @@ use serde_json::Value;
 
 use crate::common::{Ctx, EvidenceMeta, Stats, TestResult};
 
+pub mod agentprops;
 pub mod c01;
 pub mod c02;
 pub mod c03;
 pub mod c04;
+pub mod c05;
+pub mod c06;
+pub mod c07;
 pub mod c08;
 pub mod c09;
 pub mod c10;
@@ -15,9 +19,12 @@ pub mod c11;
 pub mod c12;
 pub mod c13;
 pub mod c14;
+pub mod c15;
 pub mod c16;
 pub mod c17;
+pub mod c18;
 pub mod c19;
+pub mod c20;
 
 pub struct Prop {
     pub run: fn(&Ctx) -> EvidenceMeta,
@@ -31,6 +38,9 @@ pub fn lookup(id: &str) -> Option<Prop> {
         "C02" => Prop { run: c02::run, replay: c02::replay },
         "C03" => Prop { run: c03::run, replay: c03::replay },
         "C04" => Prop { run: c04::run, replay: c04::replay },
+        "C05" => Prop { run: c05::run, replay: c05::replay },
+        "C06" => Prop { run: c06::run, replay: c06::replay },
+        "C07" => Prop { run: c07::run, replay: c07::replay },
         "C08" => Prop { run: c08::run, replay: c08::replay },
         "C09" => Prop { run: c09::run, replay: c09::replay },
         "C10" => Prop { run: c10::run, replay: c10::replay },
@@ -38,9 +48,12 @@ pub fn lookup(id: &str) -> Option<Prop> {
         "C12" => Prop { run: c12::run, replay: c12::replay },
         "C13" => Prop { run: c13::run, replay: c13::replay },
         "C14" => Prop { run: c14::run, replay: c14::replay },
+        "C15" => Prop { run: c15::run, replay: c15::replay },
         "C16" => Prop { run: c16::run, replay: c16::replay },
         "C17" => Prop { run: c17::run, replay: c17::replay },
+        "C18" => Prop { run: c18::run, replay: c18::replay },
         "C19" => Prop { run: c19::run, replay: c19::replay },
+        "C20" => Prop { run: c20::run, replay: c20::replay },
         _ => return None,
     })
 }
